@@ -1,6 +1,7 @@
 package main
 
 import (
+	"sort"
 	"fmt"
 	"go/token"
 	"go/types"
@@ -164,7 +165,11 @@ func (g *Gen) instr(b *ssa.BasicBlock, ins ssa.Instruction, st *State, r string)
 		g.deferR[x] = r
 	case *ssa.RunDefers:
 		g.runDefers(st, r)
-	case *ssa.If, *ssa.Jump:
+	case *ssa.If:
+		// "site if#k assert E": a cut in front of the k-th conditional branch (joins the paths merged so far)
+		g.commSites("if", x, nil, st, r)
+		return
+	case *ssa.Jump:
 		return
 	case *ssa.Return:
 		var rs []Val
@@ -800,19 +805,8 @@ func (g *Gen) commSites(kind string, x ssa.Instruction, states []*ssa.SelectStat
 		if sc.Match != kind {
 			continue
 		}
-		ck := "site:" + kind
-		if g.siteSeen == nil {
-			g.siteSeen = map[string]map[ssa.Instruction]int{}
-		}
-		if g.siteSeen[ck] == nil {
-			g.siteSeen[ck] = map[ssa.Instruction]int{}
-		}
-		ord, seen := g.siteSeen[ck][x]
-		if !seen {
-			ord = len(g.siteSeen[ck])
-			g.siteSeen[ck][x] = ord
-		}
-		if ord != sc.Ord {
+		ord, ok := g.siteOrd(kind, x)
+		if !ok || ord != sc.Ord {
 			continue
 		}
 		if env == nil {
@@ -896,28 +890,101 @@ func (g *Gen) nextInstr(x *ssa.Next, st *State, r string) {
 	g.vals[x] = Val{Tuple: []Val{{T: ok, Sort: "Bool"}, k, v}}
 }
 
+// siteKey names an instruction for the "site" clauses: the callee of a call/go/defer, or the kind of a
+// select, send or conditional branch.
+func siteKey(x ssa.Instruction) string {
+	switch i := x.(type) {
+	case *ssa.Select:
+		return "select"
+	case *ssa.Send:
+		return "send"
+	case *ssa.If:
+		return "if"
+	case ssa.CallInstruction:
+		cc := i.Common()
+		key := ""
+		switch {
+		case cc.IsInvoke():
+			key = ifaceMethodKey(cc.Value.Type(), cc.Method)
+		case cc.StaticCallee() != nil:
+			key = fnKey(cc.StaticCallee())
+		default:
+			if bi, isB := cc.Value.(*ssa.Builtin); isB {
+				key = "builtin:" + bi.Name()
+			} else {
+				key = "dynamic"
+			}
+		}
+		if _, isGo := x.(*ssa.Go); isGo {
+			key = "go " + key
+		}
+		return key
+	}
+	return ""
+}
+
+// siteOrd: the ordinal of instruction x among the instructions of the function under contract that the
+// match string selects, in source order (position, then block and instruction index). Instructions of
+// inlined callees are not sites of the function under contract.
+func (g *Gen) siteOrd(match string, x ssa.Instruction) (int, bool) {
+	if g.siteSeen == nil {
+		g.siteSeen = map[string]map[ssa.Instruction]int{}
+	}
+	ck := "site:" + match
+	m, have := g.siteSeen[ck]
+	if !have {
+		m = map[ssa.Instruction]int{}
+		exact := match == "select" || match == "send" || match == "if"
+		type cand struct {
+			ins  ssa.Instruction
+			b, i int
+		}
+		var cs []cand
+		for _, b := range g.topFn.Blocks {
+			for i, ins := range b.Instrs {
+				k := siteKey(ins)
+				if k == "" {
+					continue
+				}
+				switch ins.(type) {
+				case *ssa.Select, *ssa.Send, *ssa.If:
+					if k != match {
+						continue
+					}
+				default:
+					if exact || !strings.Contains(k, match) {
+						continue
+					}
+				}
+				cs = append(cs, cand{ins, b.Index, i})
+			}
+		}
+		sort.SliceStable(cs, func(a, b int) bool {
+			pa, pb := cs[a].ins.Pos(), cs[b].ins.Pos()
+			if pa.IsValid() && pb.IsValid() && pa != pb {
+				return pa < pb
+			}
+			if cs[a].b != cs[b].b {
+				return cs[a].b < cs[b].b
+			}
+			return cs[a].i < cs[b].i
+		})
+		for i, c := range cs {
+			m[c.ins] = i
+		}
+		g.siteSeen[ck] = m
+	}
+	o, ok := m[x]
+	return o, ok
+}
+
 // siteClauses applies the contract's "site" clauses that match this call/go/defer instruction.
 func (g *Gen) siteClauses(b *ssa.BasicBlock, ins ssa.CallInstruction, st *State, r string, after bool) {
 	if len(g.con.Sites) == 0 {
 		return
 	}
 	cc := ins.Common()
-	key := ""
-	switch {
-	case cc.IsInvoke():
-		key = ifaceMethodKey(cc.Value.Type(), cc.Method)
-	case cc.StaticCallee() != nil:
-		key = fnKey(cc.StaticCallee())
-	default:
-		if bi, isB := cc.Value.(*ssa.Builtin); isB {
-			key = "builtin:" + bi.Name()
-		} else {
-			key = "dynamic"
-		}
-	}
-	if _, isGo := ins.(*ssa.Go); isGo {
-		key = "go " + key
-	}
+	key := siteKey(ins)
 	idx := -1
 	for i, x := range b.Instrs {
 		if x == ins.(ssa.Instruction) {
@@ -929,19 +996,8 @@ func (g *Gen) siteClauses(b *ssa.BasicBlock, ins ssa.CallInstruction, st *State,
 		if !strings.Contains(key, sc.Match) {
 			continue
 		}
-		ck := "site:" + sc.Match
-		if g.siteSeen == nil {
-			g.siteSeen = map[string]map[ssa.Instruction]int{}
-		}
-		if g.siteSeen[ck] == nil {
-			g.siteSeen[ck] = map[ssa.Instruction]int{}
-		}
-		ord, seen := g.siteSeen[ck][ins.(ssa.Instruction)]
-		if !seen {
-			ord = len(g.siteSeen[ck])
-			g.siteSeen[ck][ins.(ssa.Instruction)] = ord
-		}
-		if ord != sc.Ord {
+		ord, ok := g.siteOrd(sc.Match, ins.(ssa.Instruction))
+		if !ok || ord != sc.Ord {
 			continue
 		}
 		if after != (sc.Kind == "ghostafter") {
